@@ -25,7 +25,11 @@ fn spin_test(req: &Value) -> Value {
 	use futures::StreamExt;
 	let n = req.get("n").and_then(|v| v.as_u64()).unwrap_or(3);
 	let use_shim = req.get("shim").and_then(|v| v.as_bool()).unwrap_or(true);
-	let rt = tokio::runtime::Builder::new_current_thread().enable_all().start_paused(true).build().unwrap();
+	let rt = tokio::runtime::Builder::new_current_thread()
+		.enable_all()
+		.start_paused(true)
+		.build()
+		.unwrap();
 	let t = std::time::Instant::now();
 	rt.block_on(async {
 		let lock = std::sync::Arc::new(super::sched::RwLock::new(0u32));
@@ -57,7 +61,10 @@ fn spin_test(req: &Value) -> Value {
 /// (number of leading zero bytes of R / of S: 0, 1, >=2) has a witness; every signature is checked
 /// by the independent fixed-width verifier.
 fn sigshapes(req: &Value) -> Value {
-	let kt_name = req.get("key_type").and_then(|v| v.as_str()).unwrap_or("ecdsa-p256");
+	let kt_name = req
+		.get("key_type")
+		.and_then(|v| v.as_str())
+		.unwrap_or("ecdsa-p256");
 	let cap = req.get("cap").and_then(|v| v.as_u64()).unwrap_or(1 << 22);
 	let want2 = req.get("want2").and_then(|v| v.as_bool()).unwrap_or(true);
 	let kt: acme_common::crypto::KeyType = match kt_name.parse() {
@@ -117,11 +124,22 @@ fn sigshapes(req: &Value) -> Value {
 			let lz = |b: &[u8]| b.iter().take_while(|x| **x == 0).count();
 			if sig.len() == 2 * size {
 				let (r, s) = (lz(&sig[..size]), lz(&sig[size..]));
-				let name = |p: &str, z: usize| format!("{p}{}", if z >= 2 { "2+".to_string() } else { z.to_string() });
+				let name = |p: &str, z: usize| {
+					format!(
+						"{p}{}",
+						if z >= 2 {
+							"2+".to_string()
+						} else {
+							z.to_string()
+						}
+					)
+				};
 				*cells.entry(name("r", r)).or_insert(0) += 1;
 				*cells.entry(name("s", s)).or_insert(0) += 1;
 				if (r >= 1 || s >= 1) && samples.len() < 3 {
-					samples.push(json!({"msg": msg, "sig_hex": cu::hexs(&sig), "r_zero_bytes": r, "s_zero_bytes": s}));
+					samples.push(
+						json!({"msg": msg, "sig_hex": cu::hexs(&sig), "r_zero_bytes": r, "s_zero_bytes": s}),
+					);
 				}
 			}
 			// full verification for every signature in a rare cell, the first 2000 of each key and
@@ -140,7 +158,9 @@ fn sigshapes(req: &Value) -> Value {
 			verified += 1;
 			if let Err(e) = cu::verify_sig(&pk, &alg.to_string(), msg.as_bytes(), &sig) {
 				if failures.len() < 5 {
-					failures.push(json!({"msg": msg, "sig_hex": cu::hexs(&sig), "sig_len": sig.len(), "jwk": jwk, "error": e}));
+					failures.push(
+						json!({"msg": msg, "sig_hex": cu::hexs(&sig), "sig_len": sig.len(), "jwk": jwk, "error": e}),
+					);
 				} else {
 					failures.push(json!({"error": e}));
 				}
@@ -162,7 +182,11 @@ pub const SUBJECT_ATTRS: [(&str, &str, &str); 15] = [
 	("name", "2.5.4.41", "Some Name"),
 	("organization_name", "2.5.4.10", "Org"),
 	("organizational_unit_name", "2.5.4.11", "Unit"),
-	("pkcs9_email_address", "1.2.840.113549.1.9.1", "pki@example.org"),
+	(
+		"pkcs9_email_address",
+		"1.2.840.113549.1.9.1",
+		"pki@example.org",
+	),
 	("postal_address", "2.5.4.16", "1 Main Street"),
 	("postal_code", "2.5.4.17", "75001"),
 	("state_or_province_name", "2.5.4.8", "State"),
@@ -214,7 +238,10 @@ fn csr_subsets(req: &Value) -> Value {
 		for i in 0..15 {
 			if m & (1 << i) != 0 {
 				hm.insert(attr_enum(i), SUBJECT_ATTRS[i].2.to_string());
-				want.push((SUBJECT_ATTRS[i].1.to_string(), SUBJECT_ATTRS[i].2.to_string()));
+				want.push((
+					SUBJECT_ATTRS[i].1.to_string(),
+					SUBJECT_ATTRS[i].2.to_string(),
+				));
 			}
 		}
 		*sizes.entry(want.len()).or_insert(0u64) += 1;
@@ -240,7 +267,10 @@ fn csr_subsets(req: &Value) -> Value {
 				let mut got = i.subject.clone();
 				got.sort();
 				want.sort();
-				if got != want || rep["selfsig_ok"] != json!(true) || i.san.dns != vec!["a.example".to_string()] {
+				if got != want
+					|| rep["selfsig_ok"] != json!(true)
+					|| i.san.dns != vec!["a.example".to_string()]
+				{
 					bad.push(json!({"mask": m, "want": want, "got": got, "report": rep}));
 				}
 			}
@@ -284,7 +314,8 @@ fn make_account(
 ) -> crate::account::Account {
 	use crate::account::{Account, AccountEndpoint, AccountKey, ExternalAccount};
 	let mk = |k: &acme_common::crypto::KeyPair| AccountKey {
-		creation_date: std::time::SystemTime::UNIX_EPOCH + std::time::Duration::from_secs(1_700_000_000),
+		creation_date: std::time::SystemTime::UNIX_EPOCH
+			+ std::time::Duration::from_secs(1_700_000_000),
 		key: k.clone(),
 		signature_algorithm: k.key_type.get_default_signature_alg(),
 	};
@@ -301,12 +332,21 @@ fn make_account(
 		endpoints.insert(format!("endpoint-{i}"), e);
 	}
 	let contacts: Vec<(String, String)> = (0..n_contacts)
-		.map(|i| ("mailto".to_string(), format!("contact{}@{}example.org", i, "sub.".repeat(i))))
+		.map(|i| {
+			(
+				"mailto".to_string(),
+				format!("contact{}@{}example.org", i, "sub.".repeat(i)),
+			)
+		})
 		.collect();
-	let mut a = futures::executor::block_on(Account::load(fm, name, &contacts, &None, &None, &None)).unwrap();
+	let mut a =
+		futures::executor::block_on(Account::load(fm, name, &contacts, &None, &None, &None))
+			.unwrap();
 	a.endpoints = endpoints;
 	a.current_key = mk(&keys[0]);
-	a.past_keys = (0..n_past).map(|i| mk(&keys[1 + i % (keys.len() - 1)])).collect();
+	a.past_keys = (0..n_past)
+		.map(|i| mk(&keys[1 + i % (keys.len() - 1)]))
+		.collect();
 	a.external_account = if eab {
 		Some(ExternalAccount {
 			identifier: "kid-\u{e9}\u{4eac}".to_string(),
@@ -348,10 +388,18 @@ fn account_fingerprint(a: &crate::account::Account) -> String {
 		"name={}|eps={:?}|contacts={:?}|cur={}|past={:?}|eab={:?}",
 		a.name,
 		eps,
-		a.contacts.iter().map(|c| c.to_string()).collect::<Vec<String>>(),
+		a.contacts
+			.iter()
+			.map(|c| c.to_string())
+			.collect::<Vec<String>>(),
 		keyfp(&a.current_key),
 		a.past_keys.iter().map(keyfp).collect::<Vec<String>>(),
-		a.external_account.as_ref().map(|e| format!("{}|{}|{}", e.identifier, cu::hexs(&e.key), e.signature_algorithm))
+		a.external_account.as_ref().map(|e| format!(
+			"{}|{}|{}",
+			e.identifier,
+			cu::hexs(&e.key),
+			e.signature_algorithm
+		))
 	)
 }
 
@@ -359,13 +407,20 @@ fn account_fingerprint(a: &crate::account::Account) -> String {
 /// alphabet, from three initial states; after every write the file must hold exactly the new content.
 fn c02_histories(req: &Value) -> Value {
 	let depth = req.get("depth").and_then(|v| v.as_u64()).unwrap_or(3) as usize;
-	let ftype = req.get("file_type").and_then(|v| v.as_str()).unwrap_or("crt").to_string();
+	let ftype = req
+		.get("file_type")
+		.and_then(|v| v.as_str())
+		.unwrap_or("crt")
+		.to_string();
 	let dir = super::scenario::make_scratch();
 	std::fs::create_dir_all(format!("{dir}/certs")).unwrap();
 	std::fs::create_dir_all(format!("{dir}/accounts")).unwrap();
 	std::fs::create_dir_all(format!("{dir}/ref")).unwrap();
 	let fm = plain_fm(&dir, "hist", "x");
-	let rt = tokio::runtime::Builder::new_current_thread().enable_all().build().unwrap();
+	let rt = tokio::runtime::Builder::new_current_thread()
+		.enable_all()
+		.build()
+		.unwrap();
 	use acme_common::crypto::{gen_keypair, KeyType};
 	let keys = vec![
 		gen_keypair(KeyType::EcdsaP256).unwrap(),
@@ -376,12 +431,29 @@ fn c02_histories(req: &Value) -> Value {
 	];
 	// content alphabet
 	let mut pki = super::ca::Pki::new("hist");
-	let pubkey = openssl::pkey::PKey::public_key_from_der(&keys[0].inner_key.public_key_to_der().unwrap()).unwrap();
+	let pubkey =
+		openssl::pkey::PKey::public_key_from_der(&keys[0].inner_key.public_key_to_der().unwrap())
+			.unwrap();
 	let chains: Vec<Vec<u8>> = (1..=4)
-		.map(|n| super::ca::chain_pem(&pki.issue(&pubkey, &["hist.example".to_string()], &[], -3600, 86400, n)).into_bytes())
+		.map(|n| {
+			super::ca::chain_pem(&pki.issue(
+				&pubkey,
+				&["hist.example".to_string()],
+				&[],
+				-3600,
+				86400,
+				n,
+			))
+			.into_bytes()
+		})
 		.collect();
 	let key_alpha: Vec<usize> = vec![4, 1, 2, 3]; // rsa4096, rsa2048, p384, ed25519 (decreasing PEM length)
-	let acct_shapes: Vec<(usize, usize, usize, bool)> = vec![(3, 3, 2, true), (0, 0, 0, false), (1, 2, 1, false), (2, 1, 0, true)];
+	let acct_shapes: Vec<(usize, usize, usize, bool)> = vec![
+		(3, 3, 2, true),
+		(0, 0, 0, false),
+		(1, 2, 1, false),
+		(2, 1, 0, true),
+	];
 	// symbols 0..3: writes of content 0..3; symbols 4..7 (certificate and key files only): the same write with an
 	// owner that cannot be resolved ("99999999999": numeric, does not fit a uid), which fails after the data was written
 	let alpha_len = if ftype == "account" { 4usize } else { 8usize };
@@ -389,9 +461,14 @@ fn c02_histories(req: &Value) -> Value {
 	bad_fm.cert_file_owner = Some("99999999999".to_string());
 	bad_fm.pk_file_owner = Some("99999999999".to_string());
 	let path = match ftype.as_str() {
-		"crt" => rt.block_on(crate::storage::get_certificate_path(&fm)).unwrap(),
+		"crt" => rt
+			.block_on(crate::storage::get_certificate_path(&fm))
+			.unwrap(),
 		"pk" => rt.block_on(crate::storage::get_keypair_path(&fm)).unwrap(),
-		_ => std::path::PathBuf::from(format!("{dir}/accounts/{}.account.bin", acme_common::b64_encode("hist"))),
+		_ => std::path::PathBuf::from(format!(
+			"{dir}/accounts/{}.account.bin",
+			acme_common::b64_encode("hist")
+		)),
 	};
 	let inits: Vec<(&str, Option<Vec<u8>>)> = vec![
 		("absent", None),
@@ -436,13 +513,17 @@ fn c02_histories(req: &Value) -> Value {
 				let (written, res): (Vec<u8>, Result<(), String>) = match ftype.as_str() {
 					"crt" => {
 						let d = chains[*a].clone();
-						let r = rt.block_on(crate::storage::write_certificate(use_fm, &d)).map_err(|e| e.message);
+						let r = rt
+							.block_on(crate::storage::write_certificate(use_fm, &d))
+							.map_err(|e| e.message);
 						(d, r)
 					}
 					"pk" => {
 						let k = &keys[key_alpha[*a]];
 						let d = k.private_key_to_pem().unwrap();
-						let r = rt.block_on(crate::storage::set_keypair(use_fm, k)).map_err(|e| e.message);
+						let r = rt
+							.block_on(crate::storage::set_keypair(use_fm, k))
+							.map_err(|e| e.message);
 						(d, r)
 					}
 					_ => {
@@ -456,14 +537,29 @@ fn c02_histories(req: &Value) -> Value {
 						// the account against the reference directory and point it at the real one
 						let mut acc = make_account(&rfm, "hist", c, e, p, eab, &keys);
 						rt.block_on(acc.save()).unwrap();
-						let ref_bytes = std::fs::read(format!("{ref_dir}/accounts/{}.account.bin", acme_common::b64_encode("hist"))).unwrap();
+						let ref_bytes = std::fs::read(format!(
+							"{ref_dir}/accounts/{}.account.bin",
+							acme_common::b64_encode("hist")
+						))
+						.unwrap();
 						acc.file_manager = fm.clone();
 						let r = rt.block_on(acc.save()).map_err(|e| e.message);
 						let want_fp = account_fingerprint(&acc);
 						if r.is_ok() {
 							// must load back equal
-							let contacts: Vec<(String, String)> = acc.contacts.iter().map(|c| ("mailto".to_string(), c.value.clone())).collect();
-							match rt.block_on(crate::account::Account::load(&fm, "hist", &contacts, &Some(acc.current_key.key.key_type.to_string()), &None, &acc.external_account)) {
+							let contacts: Vec<(String, String)> = acc
+								.contacts
+								.iter()
+								.map(|c| ("mailto".to_string(), c.value.clone()))
+								.collect();
+							match rt.block_on(crate::account::Account::load(
+								&fm,
+								"hist",
+								&contacts,
+								&Some(acc.current_key.key.key_type.to_string()),
+								&None,
+								&acc.external_account,
+							)) {
 								Ok(back) => {
 									let got_fp = account_fingerprint(&back);
 									if got_fp != want_fp {
@@ -507,13 +603,19 @@ fn c02_histories(req: &Value) -> Value {
 					"same-length"
 				};
 				states.insert(format!("{ftype}|{}|{}", a, dirn));
-				let ok = if ftype == "account" { on_disk.len() == written.len() } else { on_disk == written };
+				let ok = if ftype == "account" {
+					on_disk.len() == written.len()
+				} else {
+					on_disk == written
+				};
 				if !ok {
 					bad.push(json!({"oracle": if ftype == "account" { "acct-len+roundtrip" } else { "file=written" }, "file_type": ftype, "init": iname, "dir": dirn,
 						"history": seq[..=step].to_vec(), "detail": format!("file has {} bytes, {} were written (previous content {} bytes)", on_disk.len(), written.len(), prev_len)}));
 				}
 				if samples.len() < 3 && step == seq.len() - 1 {
-					samples.push(json!({"file_type": ftype, "init": iname, "history": seq, "final_len": on_disk.len()}));
+					samples.push(
+						json!({"file_type": ftype, "init": iname, "history": seq, "final_len": on_disk.len()}),
+					);
 				}
 				prev_len = on_disk.len() as i64;
 			}
@@ -537,7 +639,12 @@ fn c09_bfs(req: &Value) -> Value {
 		.and_then(|v| v.as_array())
 		.map(|a| {
 			a.iter()
-				.map(|x| (x[0].as_u64().unwrap_or(1) as usize, x[1].as_str().unwrap_or("1s").to_string()))
+				.map(|x| {
+					(
+						x[0].as_u64().unwrap_or(1) as usize,
+						x[1].as_str().unwrap_or("1s").to_string(),
+					)
+				})
 				.collect()
 		})
 		.unwrap_or_default();
@@ -547,13 +654,27 @@ fn c09_bfs(req: &Value) -> Value {
 		.and_then(|v| v.as_array())
 		.map(|a| a.iter().filter_map(|x| x.as_u64()).collect())
 		.unwrap_or_else(|| vec![0, 100, 500, 1000, 1100, 3000]);
-	let max_states = req.get("max_states").and_then(|v| v.as_u64()).unwrap_or(200_000) as usize;
+	let max_states = req
+		.get("max_states")
+		.and_then(|v| v.as_u64())
+		.unwrap_or(200_000) as usize;
 	let lim_ms: Vec<(usize, u64)> = limits
 		.iter()
-		.map(|(n, p)| (*n, crate::duration::parse_duration(p).map(|d| d.as_millis() as u64).unwrap_or(0)))
+		.map(|(n, p)| {
+			(
+				*n,
+				crate::duration::parse_duration(p)
+					.map(|d| d.as_millis() as u64)
+					.unwrap_or(0),
+			)
+		})
 		.collect();
 	let pmax = lim_ms.iter().map(|x| x.1).max().unwrap_or(0);
-	let rt = tokio::runtime::Builder::new_current_thread().enable_all().start_paused(true).build().unwrap();
+	let rt = tokio::runtime::Builder::new_current_thread()
+		.enable_all()
+		.start_paused(true)
+		.build()
+		.unwrap();
 	let mut seen: std::collections::HashSet<Vec<u64>> = Default::default();
 	let mut frontier: Vec<Vec<usize>> = vec![vec![]];
 	let mut transitions = 0u64;
@@ -576,9 +697,14 @@ fn c09_bfs(req: &Value) -> Value {
 					let mut adm: Vec<u64> = vec![];
 					let mut arrivals: Vec<u64> = vec![];
 					for g in h.iter() {
-						let gap = if gaps[*g] == u64::MAX { pmax + 100 } else { gaps[*g] };
+						let gap = if gaps[*g] == u64::MAX {
+							pmax + 100
+						} else {
+							gaps[*g]
+						};
 						tokio::time::advance(std::time::Duration::from_millis(gap)).await;
-						arrivals.push(tokio::time::Instant::now().duration_since(t0).as_millis() as u64);
+						arrivals
+							.push(tokio::time::Instant::now().duration_since(t0).as_millis() as u64);
 						rl.block_until_allowed().await;
 						adm.push(tokio::time::Instant::now().duration_since(t0).as_millis() as u64);
 					}
@@ -619,7 +745,9 @@ fn c09_bfs(req: &Value) -> Value {
 					}
 				}
 				if samples.len() < 2 && h.len() == depth.min(4) {
-					samples.push(json!({"gaps_ms": h.iter().map(|g| gaps[*g]).collect::<Vec<u64>>(), "admissions_ms": adm}));
+					samples.push(
+						json!({"gaps_ms": h.iter().map(|g| gaps[*g]).collect::<Vec<u64>>(), "admissions_ms": adm}),
+					);
 				}
 				if seen.insert(ages) {
 					next.push(h);
@@ -658,7 +786,10 @@ fn c13_modes(req: &Value) -> Value {
 	let to = req.get("to").and_then(|v| v.as_u64()).unwrap_or(4096) as u32;
 	let um = req.get("umask").and_then(|v| v.as_u64()).unwrap_or(0o022) as u32;
 	let dir = super::scenario::make_scratch();
-	let rt = tokio::runtime::Builder::new_current_thread().enable_all().build().unwrap();
+	let rt = tokio::runtime::Builder::new_current_thread()
+		.enable_all()
+		.build()
+		.unwrap();
 	let key = acme_common::crypto::gen_keypair(acme_common::crypto::KeyType::EcdsaP256).unwrap();
 	let keys = vec![key.clone(), key.clone()];
 	let old = unsafe { umask(um) };
@@ -677,9 +808,14 @@ fn c13_modes(req: &Value) -> Value {
 		let r2 = rt.block_on(crate::storage::set_keypair(&fm, &key));
 		let acc = make_account(&fm, "m", 1, 1, 0, false, &keys);
 		let r3 = rt.block_on(acc.save());
-		let cp = rt.block_on(crate::storage::get_certificate_path(&fm)).unwrap();
+		let cp = rt
+			.block_on(crate::storage::get_certificate_path(&fm))
+			.unwrap();
 		let kp = rt.block_on(crate::storage::get_keypair_path(&fm)).unwrap();
-		let ap = std::path::PathBuf::from(format!("{d}/accounts/{}.account.bin", acme_common::b64_encode("m")));
+		let ap = std::path::PathBuf::from(format!(
+			"{d}/accounts/{}.account.bin",
+			acme_common::b64_encode("m")
+		));
 		for (what, path, want, res) in [
 			("certificate", &cp, mode & !um, r1.map_err(|e| e.message)),
 			("private-key", &kp, pk_mode & !um, r2.map_err(|e| e.message)),
@@ -719,7 +855,14 @@ fn c13_modes(req: &Value) -> Value {
 	json!({"ok": true, "evaluated": n, "bad": bad, "samples": samples})
 }
 
-fn check_jwk_generic(kp: &acme_common::crypto::KeyPair, want: &[(&str, String)], kty: &str, alg_ok: &[&str], bad: &mut Vec<Value>, ctx: &Value) {
+fn check_jwk_generic(
+	kp: &acme_common::crypto::KeyPair,
+	want: &[(&str, String)],
+	kty: &str,
+	alg_ok: &[&str],
+	bad: &mut Vec<Value>,
+	ctx: &Value,
+) {
 	let jwk = match kp.jwk_public_key() {
 		Ok(j) => j,
 		Err(e) => {
@@ -732,15 +875,21 @@ fn check_jwk_generic(kp: &acme_common::crypto::KeyPair, want: &[(&str, String)],
 	required.push("kty".to_string());
 	for k in obj.keys() {
 		if !required.contains(k) && k != "alg" && k != "use" {
-			bad.push(json!({"ctx": ctx, "oracle": "jwk-members", "detail": format!("unexpected member {k}")}));
+			bad.push(
+				json!({"ctx": ctx, "oracle": "jwk-members", "detail": format!("unexpected member {k}")}),
+			);
 		}
 	}
 	if obj.get("kty").and_then(|v| v.as_str()) != Some(kty) {
-		bad.push(json!({"ctx": ctx, "oracle": "jwk-members", "detail": format!("kty {:?}", obj.get("kty"))}));
+		bad.push(
+			json!({"ctx": ctx, "oracle": "jwk-members", "detail": format!("kty {:?}", obj.get("kty"))}),
+		);
 	}
 	for (k, v) in want {
 		if obj.get(*k).and_then(|x| x.as_str()) != Some(v.as_str()) {
-			bad.push(json!({"ctx": ctx, "oracle": "jwk-values", "member": k, "want": v, "got": obj.get(*k)}));
+			bad.push(
+				json!({"ctx": ctx, "oracle": "jwk-values", "member": k, "want": v, "got": obj.get(*k)}),
+			);
 		}
 	}
 	if let Some(a) = obj.get("alg") {
@@ -754,50 +903,86 @@ fn check_jwk_generic(kp: &acme_common::crypto::KeyPair, want: &[(&str, String)],
 		}
 	}
 	// thumbprint input: RFC 7638 canonical form
-	let mut members: Vec<(String, String)> = want.iter().map(|(k, v)| (k.to_string(), v.clone())).collect();
+	let mut members: Vec<(String, String)> = want
+		.iter()
+		.map(|(k, v)| (k.to_string(), v.clone()))
+		.collect();
 	members.push(("kty".to_string(), kty.to_string()));
 	members.sort();
 	let canon = format!(
 		"{{{}}}",
 		members
 			.iter()
-			.map(|(k, v)| format!("{}:{}", serde_json::to_string(k).unwrap(), serde_json::to_string(v).unwrap()))
+			.map(|(k, v)| format!(
+				"{}:{}",
+				serde_json::to_string(k).unwrap(),
+				serde_json::to_string(v).unwrap()
+			))
 			.collect::<Vec<String>>()
 			.join(",")
 	);
 	match kp.jwk_public_key_thumbprint() {
 		Ok(t) => {
 			if t.to_string() != canon {
-				bad.push(json!({"ctx": ctx, "oracle": "thumbprint-input", "want": canon, "got": t.to_string()}));
+				bad.push(
+					json!({"ctx": ctx, "oracle": "thumbprint-input", "want": canon, "got": t.to_string()}),
+				);
 			}
 			// and the CA-side thumbprint code agrees on the digest
 			let mine = cu::thumbprint(&jwk).unwrap_or_default();
 			let theirs = cu::b64u_enc(&cu::sha256(t.to_string().as_bytes()));
 			if mine != theirs {
-				bad.push(json!({"ctx": ctx, "oracle": "thumbprint-input", "want": mine, "got": theirs}));
+				bad.push(
+					json!({"ctx": ctx, "oracle": "thumbprint-input", "want": mine, "got": theirs}),
+				);
 			}
 		}
 		Err(e) => bad.push(json!({"ctx": ctx, "oracle": "thumbprint-input", "error": e.message})),
 	}
 }
 
-fn roundtrip_and_sign(kp: &acme_common::crypto::KeyPair, bad: &mut Vec<Value>, ctx: &Value, sign: bool) {
+fn roundtrip_and_sign(
+	kp: &acme_common::crypto::KeyPair,
+	bad: &mut Vec<Value>,
+	ctx: &Value,
+	sign: bool,
+) {
 	let pub_der = kp.inner_key.public_key_to_der().unwrap_or_default();
-	match kp.private_key_to_der().map_err(|e| e.message).and_then(|d| acme_common::crypto::KeyPair::from_der(&d).map_err(|e| e.message)) {
+	match kp
+		.private_key_to_der()
+		.map_err(|e| e.message)
+		.and_then(|d| acme_common::crypto::KeyPair::from_der(&d).map_err(|e| e.message))
+	{
 		Ok(k2) => {
-			if k2.key_type != kp.key_type || k2.inner_key.public_key_to_der().unwrap_or_default() != pub_der {
-				bad.push(json!({"ctx": ctx, "oracle": "roundtrip", "detail": "DER round trip changed the key"}));
+			if k2.key_type != kp.key_type
+				|| k2.inner_key.public_key_to_der().unwrap_or_default() != pub_der
+			{
+				bad.push(
+					json!({"ctx": ctx, "oracle": "roundtrip", "detail": "DER round trip changed the key"}),
+				);
 			}
 		}
-		Err(e) => bad.push(json!({"ctx": ctx, "oracle": "roundtrip", "detail": format!("DER round trip failed: {e}")})),
+		Err(e) => bad.push(
+			json!({"ctx": ctx, "oracle": "roundtrip", "detail": format!("DER round trip failed: {e}")}),
+		),
 	}
-	match kp.private_key_to_pem().map_err(|e| e.message).and_then(|d| acme_common::crypto::KeyPair::from_pem(&d).map_err(|e| e.message)) {
+	match kp
+		.private_key_to_pem()
+		.map_err(|e| e.message)
+		.and_then(|d| acme_common::crypto::KeyPair::from_pem(&d).map_err(|e| e.message))
+	{
 		Ok(k2) => {
-			if k2.key_type != kp.key_type || k2.inner_key.public_key_to_der().unwrap_or_default() != pub_der {
-				bad.push(json!({"ctx": ctx, "oracle": "roundtrip", "detail": "PEM round trip changed the key"}));
+			if k2.key_type != kp.key_type
+				|| k2.inner_key.public_key_to_der().unwrap_or_default() != pub_der
+			{
+				bad.push(
+					json!({"ctx": ctx, "oracle": "roundtrip", "detail": "PEM round trip changed the key"}),
+				);
 			}
 		}
-		Err(e) => bad.push(json!({"ctx": ctx, "oracle": "roundtrip", "detail": format!("PEM round trip failed: {e}")})),
+		Err(e) => bad.push(
+			json!({"ctx": ctx, "oracle": "roundtrip", "detail": format!("PEM round trip failed: {e}")}),
+		),
 	}
 	if sign {
 		let alg = kp.key_type.get_default_signature_alg();
@@ -822,7 +1007,11 @@ fn c15_keys(req: &Value) -> Value {
 	use openssl::ec::{EcGroup, EcKey, EcPoint};
 	use openssl::nid::Nid;
 	use openssl::pkey::{Id, PKey};
-	let kind = req.get("kind").and_then(|v| v.as_str()).unwrap_or("ecdsa-p256").to_string();
+	let kind = req
+		.get("kind")
+		.and_then(|v| v.as_str())
+		.unwrap_or("ecdsa-p256")
+		.to_string();
 	let from = req.get("from").and_then(|v| v.as_u64()).unwrap_or(1);
 	let to = req.get("to").and_then(|v| v.as_u64()).unwrap_or(100);
 	let mut bad: Vec<Value> = vec![];
@@ -851,11 +1040,15 @@ fn c15_keys(req: &Value) -> Value {
 				let kp = match if d % 2 == 0 {
 					acme_common::crypto::KeyPair::from_der(&der)
 				} else {
-					acme_common::crypto::KeyPair::from_pem(&pkey.private_key_to_pem_pkcs8().unwrap())
+					acme_common::crypto::KeyPair::from_pem(
+						&pkey.private_key_to_pem_pkcs8().unwrap(),
+					)
 				} {
 					Ok(k) => k,
 					Err(e) => {
-						bad.push(json!({"ctx": ctx, "oracle": "roundtrip", "detail": format!("load failed: {}", e.message)}));
+						bad.push(
+							json!({"ctx": ctx, "oracle": "roundtrip", "detail": format!("load failed: {}", e.message)}),
+						);
 						continue;
 					}
 				};
@@ -864,9 +1057,22 @@ fn c15_keys(req: &Value) -> Value {
 				*cells.entry(format!("x{}", lz(&x))).or_insert(0) += 1;
 				*cells.entry(format!("y{}", lz(&y))).or_insert(0) += 1;
 				if (lz(&x) > 0 || lz(&y) > 0) && samples.len() < 2 {
-					samples.push(json!({"kind": kind, "d": d, "x_hex": cu::hexs(&x), "y_leading_zero_bytes": lz(&y)}));
+					samples.push(
+						json!({"kind": kind, "d": d, "x_hex": cu::hexs(&x), "y_leading_zero_bytes": lz(&y)}),
+					);
 				}
-				check_jwk_generic(&kp, &[("crv", crv.to_string()), ("x", cu::b64u_enc(&x)), ("y", cu::b64u_enc(&y))], "EC", &[alg], &mut bad, &ctx);
+				check_jwk_generic(
+					&kp,
+					&[
+						("crv", crv.to_string()),
+						("x", cu::b64u_enc(&x)),
+						("y", cu::b64u_enc(&y)),
+					],
+					"EC",
+					&[alg],
+					&mut bad,
+					&ctx,
+				);
 				if d % 64 == 0 || lz(&x) > 0 || lz(&y) > 0 {
 					roundtrip_and_sign(&kp, &mut bad, &ctx, d % 256 == 0);
 				}
@@ -876,7 +1082,11 @@ fn c15_keys(req: &Value) -> Value {
 			}
 		}
 		"ed25519" | "ed448" => {
-			let (id, crv, seedlen) = if kind == "ed25519" { (Id::ED25519, "Ed25519", 32) } else { (Id::ED448, "Ed448", 57) };
+			let (id, crv, seedlen) = if kind == "ed25519" {
+				(Id::ED25519, "Ed25519", 32)
+			} else {
+				(Id::ED448, "Ed448", 57)
+			};
 			for c in from..to {
 				n += 1;
 				let mut seed = vec![0u8; seedlen];
@@ -889,20 +1099,37 @@ fn c15_keys(req: &Value) -> Value {
 				let kp = match if c % 2 == 0 {
 					acme_common::crypto::KeyPair::from_der(&pkey.private_key_to_der().unwrap())
 				} else {
-					acme_common::crypto::KeyPair::from_pem(&pkey.private_key_to_pem_pkcs8().unwrap())
+					acme_common::crypto::KeyPair::from_pem(
+						&pkey.private_key_to_pem_pkcs8().unwrap(),
+					)
 				} {
 					Ok(k) => k,
 					Err(e) => {
-						bad.push(json!({"ctx": ctx, "oracle": "roundtrip", "detail": format!("load failed: {}", e.message)}));
+						bad.push(
+							json!({"ctx": ctx, "oracle": "roundtrip", "detail": format!("load failed: {}", e.message)}),
+						);
 						continue;
 					}
 				};
 				let raw = pkey.raw_public_key().unwrap();
 				let x = cu::b64u_enc(&raw);
-				*cells.entry(format!("first-byte-zero={}", raw[0] == 0)).or_insert(0) += 1;
-				*cells.entry(format!("has-dash={}", x.contains('-'))).or_insert(0) += 1;
-				*cells.entry(format!("has-underscore={}", x.contains('_'))).or_insert(0) += 1;
-				check_jwk_generic(&kp, &[("crv", crv.to_string()), ("x", x)], "OKP", &["EdDSA", crv], &mut bad, &ctx);
+				*cells
+					.entry(format!("first-byte-zero={}", raw[0] == 0))
+					.or_insert(0) += 1;
+				*cells
+					.entry(format!("has-dash={}", x.contains('-')))
+					.or_insert(0) += 1;
+				*cells
+					.entry(format!("has-underscore={}", x.contains('_')))
+					.or_insert(0) += 1;
+				check_jwk_generic(
+					&kp,
+					&[("crv", crv.to_string()), ("x", x)],
+					"OKP",
+					&["EdDSA", crv],
+					&mut bad,
+					&ctx,
+				);
 				if c % 16 == 0 || raw[0] == 0 {
 					roundtrip_and_sign(&kp, &mut bad, &ctx, c % 64 == 0 || raw[0] == 0);
 				}
@@ -912,7 +1139,12 @@ fn c15_keys(req: &Value) -> Value {
 			}
 		}
 		"rsa" => {
-			let specs: Vec<(u32, &str)> = vec![(2048, "3"), (2048, "65537"), (2048, "4294967297"), (4096, "65537")];
+			let specs: Vec<(u32, &str)> = vec![
+				(2048, "3"),
+				(2048, "65537"),
+				(2048, "4294967297"),
+				(4096, "65537"),
+			];
 			let only = req.get("only").and_then(|v| v.as_u64());
 			for (si, (bits, e)) in specs.iter().enumerate() {
 				if only.is_some() && only != Some(si as u64) {
@@ -925,38 +1157,73 @@ fn c15_keys(req: &Value) -> Value {
 				let want_e = cu::b64u_enc(&en.to_vec());
 				let pkey = PKey::from_rsa(rsa).unwrap();
 				let ctx = json!({"kind": "rsa", "bits": bits, "e": e});
-				let kp = match acme_common::crypto::KeyPair::from_der(&pkey.private_key_to_der().unwrap()) {
+				let kp = match acme_common::crypto::KeyPair::from_der(
+					&pkey.private_key_to_der().unwrap(),
+				) {
 					Ok(k) => k,
 					Err(e) => {
-						bad.push(json!({"ctx": ctx, "oracle": "roundtrip", "detail": format!("load failed: {}", e.message)}));
+						bad.push(
+							json!({"ctx": ctx, "oracle": "roundtrip", "detail": format!("load failed: {}", e.message)}),
+						);
 						continue;
 					}
 				};
 				*cells.entry(format!("rsa{bits}/e={e}")).or_insert(0) += 1;
-				check_jwk_generic(&kp, &[("e", want_e), ("n", want_n)], "RSA", &["RS256"], &mut bad, &ctx);
+				check_jwk_generic(
+					&kp,
+					&[("e", want_e), ("n", want_n)],
+					"RSA",
+					&["RS256"],
+					&mut bad,
+					&ctx,
+				);
 				roundtrip_and_sign(&kp, &mut bad, &ctx, true);
 			}
 		}
 		"generated" => {
-			for kt_name in ["ecdsa-p256", "ecdsa-p384", "ecdsa-p521", "ed25519", "ed448", "rsa2048", "rsa4096"] {
+			for kt_name in [
+				"ecdsa-p256",
+				"ecdsa-p384",
+				"ecdsa-p521",
+				"ed25519",
+				"ed448",
+				"rsa2048",
+				"rsa4096",
+			] {
 				let kt: acme_common::crypto::KeyType = kt_name.parse().unwrap();
-				let count = if kt_name == "rsa4096" { (to / 4).max(1) } else { to };
+				let count = if kt_name == "rsa4096" {
+					(to / 4).max(1)
+				} else {
+					to
+				};
 				for i in 0..count {
 					n += 1;
 					let kp = acme_common::crypto::gen_keypair(kt).unwrap();
 					let ctx = json!({"kind": "generated", "key_type": kt_name, "i": i});
 					*cells.entry(format!("generated/{kt_name}")).or_insert(0) += 1;
 					if kp.key_type != kt {
-						bad.push(json!({"ctx": ctx, "oracle": "roundtrip", "detail": "generated key has another type"}));
+						bad.push(
+							json!({"ctx": ctx, "oracle": "roundtrip", "detail": "generated key has another type"}),
+						);
 					}
 					// the JWK must describe the same public key as OpenSSL's own export
-					match kp.jwk_public_key().ok().and_then(|j| cu::jwk_to_pubkey(&j).ok()) {
+					match kp
+						.jwk_public_key()
+						.ok()
+						.and_then(|j| cu::jwk_to_pubkey(&j).ok())
+					{
 						Some(pk) => {
-							if pk.pkey.public_key_to_der().unwrap_or_default() != kp.inner_key.public_key_to_der().unwrap_or_default() {
-								bad.push(json!({"ctx": ctx, "oracle": "jwk-values", "detail": "JWK describes another public key"}));
+							if pk.pkey.public_key_to_der().unwrap_or_default()
+								!= kp.inner_key.public_key_to_der().unwrap_or_default()
+							{
+								bad.push(
+									json!({"ctx": ctx, "oracle": "jwk-values", "detail": "JWK describes another public key"}),
+								);
 							}
 						}
-						None => bad.push(json!({"ctx": ctx, "oracle": "jwk-values", "detail": "JWK unusable"})),
+						None => bad.push(
+							json!({"ctx": ctx, "oracle": "jwk-values", "detail": "JWK unusable"}),
+						),
 					}
 					roundtrip_and_sign(&kp, &mut bad, &ctx, true);
 				}
@@ -1010,7 +1277,12 @@ fn ref_duration(s: &str) -> Option<u64> {
 }
 
 fn duration_sweep(req: &Value) -> Value {
-	let alphabet: Vec<char> = req.get("alphabet").and_then(|v| v.as_str()).unwrap_or("019smhdwx ").chars().collect();
+	let alphabet: Vec<char> = req
+		.get("alphabet")
+		.and_then(|v| v.as_str())
+		.unwrap_or("019smhdwx ")
+		.chars()
+		.collect();
 	let maxlen = req.get("maxlen").and_then(|v| v.as_u64()).unwrap_or(5) as usize;
 	let shard = req.get("shard").and_then(|v| v.as_u64()).unwrap_or(0);
 	let nshards = req.get("nshards").and_then(|v| v.as_u64()).unwrap_or(1);
@@ -1085,13 +1357,32 @@ fn ca_start(req: &Value) -> Value {
 /// loaded back; and for some of them every truncation point of the file must be refused untouched.
 fn c11_persist(req: &Value) -> Value {
 	use acme_common::crypto::{gen_keypair, KeyType};
-	let truncate = req.get("truncate").and_then(|v| v.as_bool()).unwrap_or(false);
+	let truncate = req
+		.get("truncate")
+		.and_then(|v| v.as_bool())
+		.unwrap_or(false);
 	let shard = req.get("shard").and_then(|v| v.as_u64()).unwrap_or(0);
 	let nshards = req.get("nshards").and_then(|v| v.as_u64()).unwrap_or(1);
 	let dir = super::scenario::make_scratch();
-	let rt = tokio::runtime::Builder::new_current_thread().enable_all().build().unwrap();
-	let kts = [KeyType::EcdsaP256, KeyType::EcdsaP384, KeyType::EcdsaP521, KeyType::Ed25519, KeyType::Ed448, KeyType::Rsa2048, KeyType::Rsa4096];
-	let past_pool = vec![gen_keypair(KeyType::EcdsaP256).unwrap(), gen_keypair(KeyType::Ed25519).unwrap(), gen_keypair(KeyType::EcdsaP384).unwrap(), gen_keypair(KeyType::Rsa2048).unwrap()];
+	let rt = tokio::runtime::Builder::new_current_thread()
+		.enable_all()
+		.build()
+		.unwrap();
+	let kts = [
+		KeyType::EcdsaP256,
+		KeyType::EcdsaP384,
+		KeyType::EcdsaP521,
+		KeyType::Ed25519,
+		KeyType::Ed448,
+		KeyType::Rsa2048,
+		KeyType::Rsa4096,
+	];
+	let past_pool = vec![
+		gen_keypair(KeyType::EcdsaP256).unwrap(),
+		gen_keypair(KeyType::Ed25519).unwrap(),
+		gen_keypair(KeyType::EcdsaP384).unwrap(),
+		gen_keypair(KeyType::Rsa2048).unwrap(),
+	];
 	let names = ["plain", "n\u{e9}\u{4eac}\u{1f600} name", &"x".repeat(120)];
 	let mut bad = vec![];
 	let mut n = 0u64;
@@ -1124,8 +1415,19 @@ fn c11_persist(req: &Value) -> Value {
 							continue;
 						}
 						let want = account_fingerprint(&acc);
-						let contacts: Vec<(String, String)> = acc.contacts.iter().map(|c| ("mailto".to_string(), c.value.clone())).collect();
-						let loaded = rt.block_on(crate::account::Account::load(&fm, name, &contacts, &Some(kt.to_string()), &None, &acc.external_account));
+						let contacts: Vec<(String, String)> = acc
+							.contacts
+							.iter()
+							.map(|c| ("mailto".to_string(), c.value.clone()))
+							.collect();
+						let loaded = rt.block_on(crate::account::Account::load(
+							&fm,
+							name,
+							&contacts,
+							&Some(kt.to_string()),
+							&None,
+							&acc.external_account,
+						));
 						match loaded {
 							Ok(l) => {
 								let got = account_fingerprint(&l);
@@ -1139,12 +1441,22 @@ fn c11_persist(req: &Value) -> Value {
 							samples.push(json!({"key_type": kt.to_string(), "past_keys": n_past, "endpoints": n_ep, "binding": eab, "name": name.chars().take(20).collect::<String>()}));
 						}
 						if truncate && ni == 0 && (n_past + n_ep) % 3 == 0 && ki < 4 {
-							let path = format!("{d}/accounts/{}.account.bin", acme_common::b64_encode(name));
+							let path = format!(
+								"{d}/accounts/{}.account.bin",
+								acme_common::b64_encode(name)
+							);
 							let full = std::fs::read(&path).unwrap();
 							for len in 0..full.len() {
 								truncations += 1;
 								std::fs::write(&path, &full[..len]).unwrap();
-								let r = rt.block_on(crate::account::Account::load(&fm, name, &contacts, &Some(kt.to_string()), &None, &acc.external_account));
+								let r = rt.block_on(crate::account::Account::load(
+									&fm,
+									name,
+									&contacts,
+									&Some(kt.to_string()),
+									&None,
+									&acc.external_account,
+								));
 								let after = std::fs::read(&path).unwrap_or_default();
 								if r.is_ok() || after != full[..len] {
 									bad.push(json!({"oracle": "truncation-refused", "shape": [kt.to_string(), n_past, n_ep, eab], "cut_at": len, "of": full.len(),
@@ -1169,7 +1481,11 @@ fn c11_persist(req: &Value) -> Value {
 /// Inspect a DER certificate (C16): own DER walker for SAN / extensions, OpenSSL for the
 /// self-signature and the validity period.
 fn x509_inspect(req: &Value) -> Value {
-	let der = match req.get("der_b64").and_then(|v| v.as_str()).map(cu::b64u_dec) {
+	let der = match req
+		.get("der_b64")
+		.and_then(|v| v.as_str())
+		.map(cu::b64u_dec)
+	{
 		Some(Ok(d)) => d,
 		_ => return json!({"ok": false, "machinery_error": "der_b64 missing"}),
 	};
@@ -1181,7 +1497,11 @@ fn x509_inspect(req: &Value) -> Value {
 		Ok(x) => x,
 		Err(e) => return json!({"ok": true, "parse_error": format!("{e}")}),
 	};
-	let selfsig = x.public_key().ok().map(|k| x.verify(&k).unwrap_or(false)).unwrap_or(false);
+	let selfsig = x
+		.public_key()
+		.ok()
+		.map(|k| x.verify(&k).unwrap_or(false))
+		.unwrap_or(false);
 	let now = openssl::asn1::Asn1Time::days_from_now(0).unwrap();
 	let valid_now = x.not_before() <= now && now <= x.not_after();
 	let mut sans = vec![];
@@ -1212,11 +1532,21 @@ fn x509_inspect(req: &Value) -> Value {
 /// The daemon's own rendering of a challenge proof (used to feed tacd in C16/C20).
 fn get_proof_op(req: &Value) -> Value {
 	use std::str::FromStr;
-	let ctype = req.get("type").and_then(|v| v.as_str()).unwrap_or("tls-alpn-01");
+	let ctype = req
+		.get("type")
+		.and_then(|v| v.as_str())
+		.unwrap_or("tls-alpn-01");
 	let token = req.get("token").and_then(|v| v.as_str()).unwrap_or("tok");
-	let kt: acme_common::crypto::KeyType = req.get("key_type").and_then(|v| v.as_str()).unwrap_or("ecdsa-p256").parse().unwrap();
+	let kt: acme_common::crypto::KeyType = req
+		.get("key_type")
+		.and_then(|v| v.as_str())
+		.unwrap_or("ecdsa-p256")
+		.parse()
+		.unwrap();
 	let key = acme_common::crypto::gen_keypair(kt).unwrap();
-	let ch = crate::acme_proto::structs::Challenge::from_str(&json!({"type": ctype, "url": "http://x/", "token": token}).to_string());
+	let ch = crate::acme_proto::structs::Challenge::from_str(
+		&json!({"type": ctype, "url": "http://x/", "token": token}).to_string(),
+	);
 	let ch = match ch {
 		Ok(c) => c,
 		Err(e) => return json!({"ok": false, "machinery_error": e.message}),
